@@ -6849,6 +6849,11 @@ def subn(
                         assert last_field == first_field
                         assert last_idx > first_idx
 
+                        if last_idx - first_idx != sum(len(mm) if isinstance(mm := q.matched, list) else 1
+                                                       for q in repl_slot_new):  # e.g. `keywords` of a Call with a `*starred` between them, the `_args` range would include elements which were not captured
+                            raise MatchError(f'elements of quantifier tag {tag!r} are not contiguous in '
+                                             f'{first_base.a.__class__.__name__}.{first_field}')
+
                         repl_slot_new = first_base._get_slice(first_idx, last_idx, first_field, False, copy_options)
 
                 elif not isinstance(repl_slot_new, str):  # str could have come from static tag
